@@ -56,6 +56,8 @@ class FilePart(Part):
     def cases(self):
         out = []
         salts = ["saltForTest", "seed%d" % self.seed] + (["", "sält"] if self.tier == "thorough" else [])
+        # salts are arbitrary strings: decomposed / singleton / compatibility characters, upper case, blanks
+        odd = ["re\u0301seau-42", "\u212bngstro\u0308m \u2126", "\ufb01Salt\u00a0X", " MiXed Case "]
         for B in ([0, 1, 8, 32] if self.tier == "quick" else [0, 1, 2, 7, 8, 9, 16, 24, 31, 32]):
             for nets in (None, ["10.1.0.0/16", "200.1.2.3/32"], "private"):
                 for pref in (None, ["10.0.0.0/8", "12.0.0.0/6"]):
@@ -63,6 +65,9 @@ class FilePart(Part):
                         for nfiles in (1, 3):
                             out.append({"B": B, "networks": nets, "prefixes": pref, "salt": salt,
                                         "nfiles": nfiles, "dump_state": "absent" if (B + nfiles) % 2 else "stale"})
+        for salt in odd:
+            for B in (0, 8):
+                out.append({"B": B, "networks": None, "prefixes": None, "salt": salt, "nfiles": 1, "dump_state": "absent"})
         # the same map at every log verbosity
         for B in (0, 8):
             for lvl in ("DEBUG", "INFO", "WARNING", "ERROR", "CRITICAL"):
